@@ -18,6 +18,7 @@ RULE = ('adjacent pairs (c, c+1) of centi-marks for every table/event/gender/age
         'differently (straddles a change of points); distinct by (system, table, mark)')
 ASSUMPTIONS = ['Hungarian: range restricted to marks no slower than the zero-point of the parabola (timed) / from the zero '
                'of the parabola up to the 1400-point mark (field), as the property states']
+RULE = RULE + '; Tyrving hand-timed texts also in the minute forms m:ss.t, m.ss.t, m:ss,t'
 
 
 def fmt2(c):
